@@ -60,6 +60,7 @@ structure FrA where
   swCont : Cont
   caCont : Cont
   cur : SetRef
+  curSet : LabelSet
   numLabels : Nat
   numCaseLabels : Nat
   numSwitches : Nat
@@ -70,7 +71,7 @@ def frB (s : St) : FrB := ⟨s.nBrk, s.nCont⟩
 def frA (s : St) : FrA :=
   { counting := s.counting, dev := s.dev, progLen := s.progLen, arenaUsed := s.arenaUsed, arenaSize := s.arenaSize,
     mainSet := s.mainSet, switches := s.switches, catches := s.catches, swCont := s.swCont, caCont := s.caCont,
-    cur := s.cur, numLabels := s.info.numLabels, numCaseLabels := s.info.numCaseLabels,
+    cur := s.cur, curSet := s.curSet, numLabels := s.info.numLabels, numCaseLabels := s.info.numCaseLabels,
     numSwitches := s.info.numSwitches, numCatches := s.info.numCatches }
 
 /-- both frames kept -/
@@ -205,7 +206,12 @@ theorem frB_moveFwd (s : St) (k : Nat) : frB (s.moveFwd k) = frB s := (moveFwd_s
 theorem frA_moveFwd (s : St) (k : Nat) : frA (s.moveFwd k) = frA s := (moveFwd_same s k).2
 theorem frB_addString (s : St) (k : Nat) : frB (s.addString k).2 = frB s := (addString_same s k).1
 theorem frA_addString (s : St) (k : Nat) : frA (s.addString k).2 = frA s := (addString_same s k).2
-theorem frB_enter (s : St) (r : Option SetRef) : frB (s.enter r) = frB s := by cases r <;> rfl
+theorem frB_enter (s : St) (r : Option SetRef) : frB (s.enter r) = frB s := by
+  unfold St.enter; split <;> rfl
+theorem frB_leave (s : St) (o : SetRef) (os : LabelSet) : frB (s.leave o os) = frB s := by
+  unfold St.leave St.storeCur; split
+  · rfl
+  · split <;> rfl
 
 /-- normalise a `wp` goal: binds become nested `wp`s, join points are inlined -/
 macro "wp_simp" : tactic =>
@@ -214,7 +220,7 @@ macro "wp_simp" : tactic =>
 /-- close a goal `Same s z` from the chain of `Same` facts in the context -/
 macro "same_close" : tactic =>
   `(tactic| (simp only [same_iff, frB_trackStack, frA_trackStack, frB_accumulate, frA_accumulate, frB_moveFwd, frA_moveFwd,
-      frB_addString, frA_addString, frB_enter] at *; grind [frB, frA]))
+      frB_addString, frA_addString, frB_enter, frB_leave] at *; grind [frB, frA]))
 
 /-- apply the frame lemma of a primitive to the head of a `wp` goal (extended below, lemma by lemma) -/
 syntax "wp_prim" : tactic
@@ -335,5 +341,10 @@ theorem emitExec_neutral (s : St) (a b n : Nat) (off : Int) (ev : Nat) : Neutral
   unfold St.emitExec
   wp_auto
 macro_rules | `(tactic| wp_prim) => `(tactic| with_reducible refine wp_mono (emitExec_neutral _ _ _ _ _ _) ?_ (fun _ h => QuietImp.imp _ h))
+
+theorem emitSwitchOp_neutral (s : St) : Neutral s s.emitSwitchOp := by
+  unfold St.emitSwitchOp
+  exact emitOpBytes_neutral _ _ _
+macro_rules | `(tactic| wp_prim) => `(tactic| with_reducible refine wp_mono (emitSwitchOp_neutral _) ?_ (fun _ h => QuietImp.imp _ h))
 
 end Morfuse.Emit
